@@ -91,7 +91,16 @@ Record ostep := mkOStep {
   st_cops : list mop;         (* Set/Del calls on the client's store during the connection *)
   st_sops : list mop;
   st_post_cs : store;         (* observed stores afterwards *)
-  st_post_ss : store }.
+  st_post_ss : store;
+  st_inj : N }.               (* after establishment a forged record made 1: the client, 2: the server send a
+                                 fatal alert from the record path (observed on the wire); 0: nothing *)
+
+Definition inj_cops (st : ostep) (r : result KT) : list mop :=
+  match st_inj st with 1 => alert_ops_client (st_p st) (o_sid (r_c r)) | _ => [] end.
+Definition inj_sops (st : ostep) (r : result KT) : list mop :=
+  match st_inj st with 2 => alert_ops_server (o_sid (r_s r)) | _ => [] end.
+Definition after_c (cs : store) (st : ostep) (r : result KT) : store := apply_ops (post_c cs r) (inj_cops st r).
+Definition after_s (ss : store) (st : ostep) (r : result KT) : store := apply_ops (post_s ss r) (inj_sops st r).
 
 Definition step_ok (cs ss : store) (st : ostep) : bool :=
   let r := connT (st_p st) cs ss in
@@ -102,9 +111,9 @@ Definition step_ok (cs ss : store) (st : ostep) : bool :=
   | _ => true
   end &&
   side_ok (r_c r) (st_c st) && side_ok (r_s r) (st_s st) &&
-  mops_eqb (dedup (r_cops r)) (dedup (st_cops st)) &&
-  mops_eqb (dedup (r_sops r)) (dedup (st_sops st)) &&
-  store_equiv (post_c cs r) (st_post_cs st) && store_equiv (post_s ss r) (st_post_ss st).
+  mops_eqb (dedup (r_cops r ++ inj_cops st r)) (dedup (st_cops st)) &&
+  mops_eqb (dedup (r_sops r ++ inj_sops st r)) (dedup (st_sops st)) &&
+  store_equiv (after_c cs st r) (st_post_cs st) && store_equiv (after_s ss st r) (st_post_ss st).
 
 (* a history: the model's stores are threaded through; after a scripted mutation they are replaced
    by the observed ones, otherwise the observed ones must be what the model computed *)
@@ -117,7 +126,7 @@ Fixpoint hist_ok_from (cs ss : store) (l : list ostep) : bool :=
       (st_mut st || (store_equiv cs (st_cs st) && store_equiv ss (st_ss st))) &&
       step_ok cs0 ss0 st &&
       let r := connT (st_p st) cs0 ss0 in
-      hist_ok_from (post_c cs0 r) (post_s ss0 r) t
+      hist_ok_from (after_c cs0 st r) (after_s ss0 st r) t
   end.
 
 Definition hist_case := list ostep.
@@ -132,7 +141,7 @@ Fixpoint first_bad_from (i : N) (cs ss : store) (l : list ostep) : option (N * r
       let ss0 := if st_mut st then st_ss st else ss in
       let r := connT (st_p st) cs0 ss0 in
       if (st_mut st || (store_equiv cs (st_cs st) && store_equiv ss (st_ss st))) && step_ok cs0 ss0 st
-      then first_bad_from (i + 1) (post_c cs0 r) (post_s ss0 r) t
+      then first_bad_from (i + 1) (after_c cs0 st r) (after_s ss0 st r) t
       else Some (i, r)
   end.
 Definition first_bad (h : hist_case) := first_bad_from 0 [] [] h.
